@@ -303,7 +303,7 @@ ArgsT = ObjT("Namespace", cut=GListT(Int, 3), cut2=GListT(Int, 3), nextseq_trim=
              length_tag=OptT(Str), strip_suffix=GListT(Str, 2), prefix=OptT(Str), suffix=OptT(Str), zero_cap=Bool)
 
 
-@contract("cli.py", "make_pipeline_from_args", props=["C10"], name="make_pipeline_from_args:modifiers")
+@contract("cli.py", "make_pipeline_from_args", props=["C10", "C13"], name="make_pipeline_from_args:modifiers")
 def builder_modifiers(c):
     """The segment of make_pipeline_from_args that assembles the modifier list (`modifiers = []` ... end)."""
     c.replay_grid = ["C10"]
